@@ -36,6 +36,11 @@ pub fn release<S: Strat>(held: Vec<Guard<V, S>>) {
 /// Everything main does after the worker threads are gone: final read of each container, history
 /// and count oracles, then dropping or consuming the containers and the handles it was given.
 pub fn epilogue<S: Strat>(conts: Vec<Arc<Cont<S>>>, filler: Arc<Cont<S>>, kept: Vec<V>, consume: bool) {
+    epilogue_p(conts, filler, kept, consume, "C03")
+}
+
+/// `hist_prop`: the property the history oracle decides in this harness.
+pub fn epilogue_p<S: Strat>(conts: Vec<Arc<Cont<S>>>, filler: Arc<Cont<S>>, kept: Vec<V>, consume: bool, hist_prop: &str) {
     world::node_count();
     let mut owners: HashMap<u64, usize> = HashMap::new();
     let mut guards = Vec::new();
@@ -54,7 +59,7 @@ pub fn epilogue<S: Strat>(conts: Vec<Arc<Cont<S>>>, filler: Arc<Cont<S>>, kept: 
         use_value(v, l, "kept handle");
         *owners.entry(l).or_insert(0) += 1;
     }
-    world::check_linearizable("C03");
+    world::check_linearizable(hist_prop);
     world::check_counts::<1>(&owners, "after all threads finished");
     for g in guards {
         drop_guard(g);
